@@ -193,9 +193,13 @@ func ruleBuryWhenEmpty(c *Ctx) {
 	}
 	// RemoveTombStoneRecords deletes only tombstones
 	rm := P.Method("server/cluster", "RaftCluster", "RemoveTombStoneRecords")
-	del := F(P.Method("server/cluster", "RaftCluster", "deleteStoreLocked"))
+	// (the deletion itself: the cluster's helper, or the storage / cache deletions written in place)
+	dels := []Callee{F(P.Method("server/core", "Storage", "DeleteStore")), F(P.Method("server/core", "BasicCluster", "DeleteStore"))}
+	if h := P.methodOpt("server/cluster", "RaftCluster", "deleteStoreLocked"); h != nil {
+		dels = append(dels, F(h))
+	}
 	isTomb := F(P.Method("server/core", "StoreInfo", "IsTombstone"))
-	c.need(rule, rm, "call deleteStoreLocked", instrCallMatcher(del), []Ev{guardCall("IsTombstone()", true, callMatcher(isTomb))}, all, "only tombstone records are deleted")
+	c.need(rule, rm, "deletion of a store record", func(x ssa.Instruction) bool { return isCallTo(x, dels...) }, []Ev{guardCall("IsTombstone()", true, callMatcher(isTomb))}, all, "only tombstone records are deleted")
 }
 
 func ruleStorePersistBeforeServe(c *Ctx) {
